@@ -26,3 +26,4 @@ def check(ctx):
     ctx.floor("STEP-adapter", 5)
     ctx.floor("CLAMP", 2)
     kernels.pchip_evaluation(ctx)
+    kernels.pchip_end_slopes(ctx)
